@@ -21,9 +21,9 @@ fn exact_case(st: &mut Stats, rng: &mut Rng, rows: usize, cols: usize) {
     let dt = d.transpose();
     // distinct primes (signed) so that a wrong pairing of component and entry changes the result
     let mut p: Vec<i64> = PRIMES.to_vec(); rng.shuffle(&mut p);
-    let x: Vec<Rat> = (0..cols).map(|j| Rat::int(if rng.bool() { p[j] } else { -p[j] })).collect();
+    let x: Vec<Rat> = (0..cols).map(|j| Rat::int(if rng.bool() { p[j % 12] } else { -p[j % 12] })).collect();
     rng.shuffle(&mut p);
-    let y: Vec<Rat> = (0..rows).map(|i| Rat::int(if rng.bool() { p[i] } else { -p[i] })).collect();
+    let y: Vec<Rat> = (0..rows).map(|i| Rat::int(if rng.bool() { p[i % 12] } else { -p[i % 12] })).collect();
     let mut t = m.triplets(); rng.shuffle(&mut t);
     let desc = || format!("T=Rat {}x{} entries={:?} x={:?} y={:?}", rows, cols, m.triplets(), x, y);
     let s = if rng.chance(0.3) { let (val, ri, cs) = m.csc(rng, true); catch(|| Sparse::<Rat>::from_vecs(rows, cols, val, ri, cs)) } else { catch(|| Sparse::<Rat>::from_triplets(rows, cols, &mut t)) };
@@ -185,7 +185,15 @@ fn history_case(st: &mut Stats, rng: &mut Rng, rows: usize, cols: usize) {
 pub fn run(ctx: &Ctx) -> Report {
     let nshape = 121u64; // [0,10]^2
     let reps = ctx.vol(10_000, 600_000);
-    let stats = par_run(ctx, TAG, nshape, |u, rng, st| {
+    // plus long shapes (11..48 rows/columns, drawn per unit): "every rectangular shape" does not stop at 10
+    let nlong = 48u64;
+    let stats = par_run(ctx, TAG, nshape + nlong, |u, rng, st| {
+        if u >= nshape {
+            let (r, c) = (rng.usize(11, 48), rng.usize(11, 48));
+            for _ in 0..(reps / 16).max(50) { exact_case(st, rng, r, c); float_case(st, rng, r, c); history_case(st, rng, r, c); }
+            st.count("long-shape-units(11..48)");
+            return;
+        }
         let (r, c) = ((u / 11) as usize, (u % 11) as usize);
         for _ in 0..reps { exact_case(st, rng, r, c); float_case(st, rng, r, c); history_case(st, rng, r, c); }
         near_twins(st, rng);
